@@ -849,13 +849,17 @@ def oracle(case, out):
                         "probabilities and gets another label than in the batch" % (
                             cl, who, r["tag"], idx[k]))
             continue
-        # a reordering: the row is there, at another position
-        if cl in ("permutation-equivariance", "single-instance-differs-from-batch-row",
-                  "sub-selection") and len(rows) > 0:
-            other = [j for j in range(n) if j != idx[k] and _row_same(tbl, B[j], rows[k])]
-            if other and not _row_same(tbl, B[other[0]], B[idx[k]]):
-                return "row-order: %s run '%s': the row of instance %d equals batch row %d" % (
-                    who, r["tag"], idx[k], other[0])
+        # the expected rows are all there, in another order
+        if len(rows) >= 2:
+            left = list(range(len(exp)))
+            for row in rows:
+                hit = [j for j in left if _row_same(tbl, exp[j], row)]
+                if not hit:
+                    break
+                left.remove(hit[0])
+            else:
+                return "row-order: %s run '%s': the expected rows come in another order (row %d)" % (
+                    who, r["tag"], k)
         return "%s: %s run '%s': output row %d differs from batch row %d" % (
             cl, who, r["tag"], k, idx[k])
     if late:
